@@ -571,7 +571,7 @@ func propSpecs() map[string]PropSpec {
 	add(PropSpec{ID: "C01", Level: "fault_enumeration", Classes: []string{"crash"},
 		Rule: "each seeded workload (all mutating RPCs, three stability levels, multi-block writes, truncations, big-file removal) is recorded on the crash disk; EVERY prefix cut of its trace, one (thorough: three) lossy image(s) per cut with un-barriered writes lost/reordered, and cuts of sampled recovery runs (depth 2) are recovered by the real MakeNfs; the recovered tree must equal reference state S_j for some lo<=j<=hi, handles preserved, fsck clean, continuation workload in lock-step with S_j; concurrent traces (2-4 clients confined to their own directories, journal-rejected requests next to them): every client's subtree a prefix state of its own sequence within [durable, issued], combination consistent with real time; directed: each kind of stable request parked at its pre-commit/first-release/post-commit hook while a journal-rejected and an unstable request run, image at the instant of its reply recovered; distinct = distinct (recovered tree, on-disk state, lo, hi) with lo<hi (an operation in flight or an unstable suffix)",
 		Plan: func(tier string, seed uint64) []Job {
-			js := append(withCrash(noJobs, "C01", 8, 150)(tier, seed), Job{Engine: "probe01", Profile: "C01", Seed: seed})
+			js := append(withCrash(noJobs, "C01", 8, 48)(tier, seed), Job{Engine: "probe01", Profile: "C01", Seed: seed}) // a thorough trace has > 10000 images
 			n := 6
 			if tier == "thorough" {
 				n = 80
